@@ -60,7 +60,7 @@ from ._loaders_dumpers import (
     json_or_yaml_loader_exceptions,
     load_value,
 )
-from ._namespace import Namespace
+from ._namespace import Namespace, recreate_branches
 from ._optionals import (
     capture_typing_extension_shadows,
     get_alias_target,
@@ -835,7 +835,7 @@ def adapt_typehints(
         sorted_subtypes = sort_subtypes_for_union(subtypehints, val, append)
         for subtype in sorted_subtypes:
             try:
-                vals.append(adapt_typehints(val, subtype, **adapt_kwargs))
+                vals.append(adapt_typehints(recreate_branches(val), subtype, **adapt_kwargs))
                 break
             except Exception as ex:
                 if subtype is str and not isinstance(val, str) and isinstance(orig_val, str):
